@@ -272,6 +272,10 @@ FNUNITS = [
     ("Dfknat", "hdf/src/dfknat.c", ["DFKnb1b", "DFKnb2b", "DFKnb4b", "DFKnb8b"], {"flat": ["s", "d"], "ignore_calls": ["HEclear", "HEPclear", "HEpush"]}),
     # C15: the run-length coder of the DFR8 interface (pointer cursors with post-increments, pointer differences; static carry-over buffer)
     ("Dfrle", "hdf/src/dfrle.c", ["DFCIrle", "DFCIunrle"], {}),
+    # C08 / C02: the vgroup record encoder (ENCODE macros = byte stores through a moving pointer, strlen/strcpy of name and class)
+    ("Vgp", "hdf/src/vgp.c", ["vpackvg"], {"ignore_calls": ["HEclear", "HEPclear", "HEpush"]}),
+    # C07 / C02: the vdata header encoder (field table, field names = an array of rows)
+    ("Vio", "hdf/src/vio.c", ["vpackvs"], {"ignore_calls": ["HEclear", "HEPclear", "HEpush"]}),
 ]
 
 
